@@ -22,7 +22,7 @@ func (c06) Info() core.Info {
 	return core.Info{
 		Level: "exploration",
 		Rule: "seeded histories of bind / copy / nest / pass-to-function / mutate / observe events over the names a,b,c (arrays), m,n (maps), h (nesting holder), executed as grol inputs on one real session: " +
-			"literals of size 0..20 on both sides of the 8-element / 4-pair thresholds, b = a, [a, a], {\"p\": a}, mutating callee, a[i] = v, m[k] = v, m.k = v, del(m.k), a = a + [x], b = a + [x], pure a + b, m + n, slices, rest(), " +
+			"literals (also built inside a function from outer bindings) of size 0..20 on both sides of the 8-element / 4-pair thresholds, b = a, [a, a], {\"p\": a}, mutating callee, a[i] = v, m[k] = v, m.k = v, del(m.k), a = a + [x], b = a + [x], pure a + b, m + n, slices, rest(), " +
 			"for x = a { a[-1] = x }, failing operations (index out of range, wrong index type) and a deadline fault at a PRNG-chosen virtual tick inside 'a[i] = slow(v)'. " +
 			"After EVERY event every live name is observed (typed canonical tree) and compared with a copy-on-bind reference model; failed operations must leave every binding unchanged; after a cancelled assignment the target holds its old or new value. " +
 			"A mismatch whose signature (event kind, container kind, size class) is a recorded finding is counted and the session re-synchronised to the model, so exploration continues past known aliasing. " +
